@@ -1163,7 +1163,7 @@ def run(chk: Check):
     _tables(chk, agg, "EQ", 1 if quick else 2, 1, ("tree",), "EQ")
     _tables(chk, agg, "HTTP", 1 if quick else 2, 1, ("tree",), "HTTP")
     if not quick:
-        _tables(chk, agg, "EQ", 3, 1, ("tree",), "EQ d3 (model only)", mc_only=True)
+        _tables(chk, agg, "EQ2", 3, 1, ("tree",), "two atoms, depth 3 (model only)", mc_only=True)
     lap("tables")
     # ---- part 2: the log machine
     if quick:
